@@ -14,10 +14,6 @@ def atomB (u v w : Bool) : Atom → Bool
   | .one => true | .mone => false
   | .bad => false
 
-def atomUsesW : Atom → Bool
-  | .w | .nw => true
-  | _ => false
-
 def atomOk : Atom → Bool
   | .bad => false
   | _ => true
